@@ -127,6 +127,63 @@ def stencil_records(ctx, rng, nid):
     return recs
 
 
+def tie_param(eps):
+    """a double p whose double product p*eps equals the double 1e-6: the value on the internal threshold of the step rule"""
+    p = 1e-6 / eps
+    cand = [p]
+    lo = hi = p
+    for _ in range(4):
+        lo, hi = float(np.nextafter(lo, 0.0)), float(np.nextafter(hi, np.inf))
+        cand += [lo, hi]
+    for q in cand:
+        if q * eps == 1e-6:
+            return q
+    return None
+
+
+TIE_EPS = [1e-4, 1e-3, 2e-3, 1e-2, 3e-2, 1e-1, 2.0 ** -7, 3 * 2.0 ** -8]
+# the other threshold of the stencil choice is p == 0: the smallest doubles either side of it, the smallest normal ones, -0.0
+ZERO_EDGE = [5e-324, -5e-324, 2.2250738585072014e-308, -2.2250738585072014e-308, -0.0, 1e-300]
+
+
+def threshold_records(ctx, rng, nid):
+    """Deterministic block (every tier): parameters exactly on and one unit in the last place either side of each internal
+    threshold of the stencil choice (p*eps == 1e-6 for eight step sizes; p == 0), alone and inside longer vectors, for
+    quadratic and linear test functions whose coefficients in the threshold direction are not zero."""
+    def nz(lo, hi):
+        return rng.choice([-1, 1]) * rng.uniform(lo, hi)
+
+    def fn(n, linear):
+        Q = np.zeros((n, n))
+        if not linear:
+            for i in range(n):
+                for j in range(i, n):
+                    Q[i, j] = Q[j, i] = nz(0.5, 5)
+        return Q, np.array([nz(0.5, 5) for _ in range(n)]), rng.uniform(-10, 10)
+    recs = []
+    for eps in TIE_EPS:
+        pt = tie_param(eps)
+        if pt is None:
+            continue
+        for v in (pt, float(np.nextafter(pt, 0.0)), float(np.nextafter(pt, np.inf))):
+            for linear in (True, False):
+                Q, b, c = fn(1, linear)
+                recs += stencil_pair(nid, Q, b, c, [v], eps)
+        Q, b, c = fn(3, False)
+        recs += stencil_pair(nid, Q, b, c, [10 ** rng.uniform(-1, 1), pt, 0.0], eps)
+        Q, b, c = fn(2, True)
+        recs += stencil_pair(nid, Q, b, c, [pt, float(np.nextafter(pt, 0.0))], eps, pform='array')
+    for j, v in enumerate(ZERO_EDGE):
+        for linear in (True, False):
+            Q, b, c = fn(1, linear)
+            recs += stencil_pair(nid, Q, b, c, [v], [1e-4, 1e-1, 1e-2][(j + linear) % 3])
+    Q, b, c = fn(4, False)
+    recs += stencil_pair(nid, Q, b, c, [0.0, 5e-324, tie_param(1e-2), 1.5], 1e-2)
+    Q, b, c = fn(4, True)
+    recs += stencil_pair(nid, Q, b, c, [tie_param(1e-3), -5e-324, 2.5, tie_param(1e-3)], 1e-3)
+    return recs
+
+
 # ------------------------------------------------------------------ 2. linear Poisson models
 # Inputs of the closed-form records are floats with few significant bits (multiples of 1/8, 1/16, ...): the exact
 # rational arithmetic of the specification divides by the model means, and short inputs keep its numbers short.
@@ -179,30 +236,73 @@ def poisson_like(rng, mean):
     return dadi.Spectrum(np.array(vals))
 
 
+def fold_by_hand(arr):
+    """minor-allele folding of a 1-D spectrum array: mirror entries summed into the lower one, upper half empty"""
+    n = len(arr) - 1
+    out = np.zeros(n + 1)
+    for i in range(n + 1):
+        if i < n - i:
+            out[i] = arr[i] + arr[n - i]
+        elif i == n - i:
+            out[i] = arr[i]
+    return out
+
+
+def dress(rng, fs, folded, hide):
+    """The spectrum fs as the caller would hold it: folded (by hand, flag set, upper half masked) and / or with the interior
+    entries `hide` masked; a masked entry keeps a (large) number underneath, as real masked data do."""
+    import dadi
+    n = len(fs) - 1
+    arr = np.array(np.asarray(fs.data), dtype=float)
+    mask = np.zeros(n + 1, dtype=bool)
+    if folded:
+        arr = fold_by_hand(arr)
+        mask[[i for i in range(n + 1) if i > n - i]] = True
+    for i in hide:
+        mask[i] = True
+        arr[i] = float(3 * round(arr[i]) + rng.randint(5, 40))
+    return dadi.Spectrum(arr, mask=mask, data_folded=True if folded else None)
+
+
 def gen_stats_case(rng, eps=None, cfg=None):
     """cfg (all optional) fixes: k, multinom, fixed, nb, eps, adj (bool), nested (0-based list), fullform ('nested' | 'entire'),
-    bootform ('spectrum' | 'ndarray'), nestform ('list' | 'array'), plain (scalar-return code paths)."""
+    bootform ('spectrum' | 'ndarray'), nestform ('list' | 'array'), plain (scalar-return code paths), n ((lo, hi) sample size),
+    tie (index of a parameter put exactly on the step-rule threshold p*eps == 1e-6), folded (data and bootstraps folded,
+    model unfolded), dmask / bmask (number of interior entries masked in the data / in each bootstrap)."""
     cfg = cfg or {}
-    n = rng.randint(5, 10)
+    n = rng.randint(*cfg.get('n', (5, 10)))
     multinom = cfg.get('multinom', rng.random() < 0.4)
     k = cfg.get('k', rng.choice([1, 2, 2]) if multinom else rng.choice([1, 2, 2, 3]))
     scale = rng.choice([4, 16, 64])
     # with the theta augmentation the model needs a parameter-free component, otherwise (p, theta) is not identifiable
     model = LinModel(rng, n, k, fixed=multinom or cfg.get('fixed', rng.random() < 0.3), scale=1 if multinom else scale)
     p0 = [short(rng, 0.5, 3.0, 8) for _ in range(k)]
+    if cfg.get('tie') is not None:
+        # the same model in other units: parameter a is tiny (exactly on the threshold of the step rule), its component large
+        a, pt = cfg['tie'], tie_param(cfg['eps'])
+        model.B[a] = model.B[a] * float(2.0 ** round(math.log2(p0[a] / pt)))
+        p0[a] = pt
     mean = np.asarray(model(p0, [n], [10]).data) * (scale if multinom else 1)
     data = poisson_like(rng, mean)
     nb = cfg.get('nb', k + (1 if multinom else 0) + rng.randint(2, 5))      # J (mean of nb rank-one matrices) needs more bootstraps than parameters
     boots = [poisson_like(rng, mean) for _ in range(nb)]
     eps = eps or cfg.get('eps') or rng.choice([short_eps(rng, -3, -1.5), short_eps(rng, -3, -1.5), short_eps(rng, -4, -3), short_eps(rng, -1.5, -1)])
+    folded, dmask, bmask = cfg.get('folded', False), cfg.get('dmask', 0), cfg.get('bmask', 0)
+    if folded or dmask or bmask:
+        interior = [i for i in range(1, n) if not folded or i <= n - i]
+        dhide = sorted(rng.sample(interior, dmask))
+        data = dress(rng, data, folded, dhide)
+        # bootstraps of masked data carry the mask of the data; every other one (if asked for) a mask of its own
+        boots = [dress(rng, b, folded, (dhide if j % 2 == 0 and dmask else sorted(rng.sample(interior, bmask))) if bmask else []) for j, b in enumerate(boots)]
     adj = None
     if not multinom and cfg.get('adj', rng.random() < 0.3):
         adj = [short(rng, 0.8, 1.25, 16) for _ in range(nb)]
     nested = cfg.get('nested', sorted(rng.sample(range(k), rng.randint(1, k))))
-    full = [p0[a] + rng.choice([-1, 1]) * short(rng, 0.125, 0.5, 8) for a in nested]
+    full = [p0[a] + rng.choice([-1, 1]) * short(rng, 0.125, 0.5, 8) * (p0[a] if cfg.get('tie') is not None else 1) for a in nested]
     return {'model': model, 'p0': p0, 'multinom': multinom, 'data': data, 'boots': boots, 'eps': eps, 'adj': adj,
             'nested': nested, 'full': full, 'pts': [10], 'fullform': cfg.get('fullform', 'nested'), 'bootform': cfg.get('bootform', 'spectrum'),
-            'nestform': cfg.get('nestform', 'list'), 'plain': cfg.get('plain', False), 'cfg': cfg.get('name', '')}
+            'nestform': cfg.get('nestform', 'list'), 'plain': cfg.get('plain', False), 'cfg': cfg.get('name', ''),
+            'dressed': bool(folded or dmask or bmask), 'folded': bool(folded)}
 
 
 def stats_in(case, op, boots=None, adj=None):
@@ -218,6 +318,13 @@ def stats_in(case, op, boots=None, adj=None):
            'adj': [rat(a) for a in adj] if use_adj else (['1'] * len(boots) if use_boots else []),
            'nested': [a + 1 for a in case['nested']], 'full': rats(case['full']),
            'forms': [case.get('fullform', 'nested'), case.get('bootform', 'spectrum'), case.get('nestform', 'list'), 'plain' if case.get('plain') else 'full', case.get('cfg', '')]}
+    if case.get('dressed'):
+        # masked / folded spectra: the numbers under the masks are part of the input ('d', 'boots'), the masks say which entries
+        # carry likelihood (a bootstrap has its own), 'folded' that the spectra are folded while the model is not
+        inp['folded'] = bool(case.get('folded'))
+        inp['dmask'] = [bool(x) for x in np.ma.getmaskarray(data)]
+        inp['bmasks'] = [[bool(x) for x in np.ma.getmaskarray(b)] for b in boots] if use_boots else []
+        inp['blive'] = [[bool(x) for x in ~(np.ma.getmaskarray(m0) | np.ma.getmaskarray(b))] for b in boots] if use_boots else []
     return inp
 
 
@@ -241,14 +348,19 @@ def call_stat(case, op, func=None, boots=None, adj=None):
         for a, v in zip(case['nested'], case['full']):
             full[a] = v
     plain = case.get('plain', False)
+    log = bool(case.get('log', False))
     try:
         if op == 'fim':
-            u, H = Godambe.FIM_uncert(model, pts, p0, data, log=False, multinom=mn, eps=eps, return_FIM=True)
+            u, H = Godambe.FIM_uncert(model, pts, p0, data, log=log, multinom=mn, eps=eps, return_FIM=True)
             if plain:
-                u = Godambe.FIM_uncert(model, pts, p0, data, log=False, multinom=mn, eps=eps)
+                u = Godambe.FIM_uncert(model, pts, p0, data, log=log, multinom=mn, eps=eps)
             return {'u': rats(np.asarray(u, dtype=float)), 'H': rats(np.asarray(H, dtype=float))}
+        if op == 'godambe':          # the function the five entry points are built on, called directly
+            G, H, J, cU = Godambe.get_godambe(model, pts, boots, p0, data, eps, log=log)
+            return {'G': rats(np.asarray(G, dtype=float)), 'H': rats(np.asarray(H, dtype=float)), 'J': rats(np.asarray(J, dtype=float)),
+                    'cU': rats(np.asarray(cU, dtype=float).ravel())}
         if op == 'gim':
-            kw = dict(log=False, multinom=mn, eps=eps, boot_theta_adjusts=list(adj) if adj is not None else None)
+            kw = dict(log=log, multinom=mn, eps=eps, boot_theta_adjusts=list(adj) if adj is not None else None)
             u, G, H = Godambe.GIM_uncert(model, pts, boots, p0, data, return_GIM=True, **kw)
             if plain:
                 u = Godambe.GIM_uncert(model, pts, boots, p0, data, **kw)
@@ -289,25 +401,25 @@ def flatten(out):
 
 
 SITE = {'fim': 'Godambe.FIM_uncert', 'gim': 'Godambe.GIM_uncert', 'lrt': 'Godambe.LRT_adjust', 'wald': 'Godambe.Wald_stat',
-        'score': 'Godambe.score_stat'}
+        'score': 'Godambe.score_stat', 'godambe': 'Godambe.get_godambe'}
 STAT_OPS = ('fim', 'gim', 'lrt', 'wald', 'score')
 
 
 def screen(cases, ops=STAT_OPS):
     """Ask TLC (Trace_Godambe!FScreen) for which statistics the closed-form comparison can decide each case.
-    Returns a list of sets of decidable ops."""
+    Returns a list of sets of decidable ops.  A case may name the statistics it is needed for (case['screen_ops'])."""
     if not cases:
         return []
     recs = []
     for ci, case in enumerate(cases):
         inp = stats_in(case, 'screen')
-        inp['ops'] = list(ops)
+        inp['ops'] = list(case.get('screen_ops', ops))
         recs.append({'id': 'screen-%d' % ci, 'op': 'screen', 'in': inp, 'out': {}})
     verdicts, _ = common.validate_trace('Trace_Godambe', recs, parallel=8)
     out = []
-    for ci in range(len(cases)):
+    for ci, case in enumerate(cases):
         bad = {c.split('_', 1)[1] for c in verdicts.get('screen-%d' % ci, [])}
-        out.append(set(ops) - bad)
+        out.append(set(case.get('screen_ops', ops)) - bad)
     return out
 
 
@@ -381,6 +493,193 @@ def stats_records(ctx, rng, nid, det, rnd, ok):
     return recs, {'stats_cases_generated': len(rnd) * len(STAT_OPS), 'stats_cases_undecidable_dropped': undecidable,
                   'stats_named_configurations': [c['name'] for c in STATS_CONFIGS],
                   'stats_named_configurations_without_decidable_case': missing}
+
+
+# ---- deterministic blocks added for values on internal thresholds and for masked / folded spectra (every tier; each block has
+# its own generator random.Random(ctx.seed + 1900 + k), so the older parts of the trace do not move)
+TIE_CONFIGS = [       # a parameter exactly on the threshold p*eps == 1e-6 of the step rule, through the statistics built on get_grad
+    {'name': 'k1-threshold-parameter', 'k': 1, 'multinom': False, 'nb': 3, 'eps': 3 * 2.0 ** -8, 'adj': False, 'nested': [0], 'tie': 0,
+     'ops': ('fim', 'gim', 'lrt', 'score', 'godambe')},
+    {'name': 'k2-threshold-parameter-first', 'k': 2, 'multinom': False, 'nb': 5, 'eps': 2.0 ** -7, 'adj': False, 'nested': [0], 'tie': 0,
+     'ops': ('gim', 'lrt', 'wald', 'score', 'godambe')},
+    {'name': 'k2-threshold-parameter-last-theta-adjusts', 'k': 2, 'multinom': False, 'nb': 5, 'eps': 2.0 ** -6, 'adj': True, 'nested': [0, 1], 'tie': 1,
+     'ops': ('gim', 'lrt')},
+]
+MASK_CONFIGS = [      # data / bootstraps with entries masked beyond the corners; folded spectra with an unfolded model function
+    {'name': 'k1-data-masked', 'k': 1, 'multinom': False, 'nb': 3, 'eps': 2.0 ** -7, 'adj': False, 'nested': [0], 'n': (8, 12), 'dmask': 1,
+     'ops': ('fim', 'gim', 'lrt')},
+    {'name': 'k1-bootstraps-masked', 'k': 1, 'multinom': False, 'nb': 4, 'eps': 2.0 ** -7, 'adj': False, 'nested': [0], 'n': (8, 12), 'bmask': 2,
+     'ops': ('gim', 'lrt', 'score')},
+    {'name': 'k2-data-and-bootstraps-masked', 'k': 2, 'multinom': False, 'nb': 5, 'eps': 2.0 ** -7, 'adj': False, 'nested': [1], 'n': (9, 13),
+     'dmask': 2, 'bmask': 2, 'ops': ('fim', 'gim', 'lrt', 'godambe')},
+    {'name': 'k1-theta-augmented-masked', 'k': 1, 'multinom': True, 'nb': 4, 'eps': 2.0 ** -8, 'nested': [0], 'n': (9, 13), 'dmask': 1, 'bmask': 1,
+     'ops': ('fim', 'gim', 'lrt')},
+    {'name': 'k1-folded-even', 'k': 1, 'multinom': False, 'nb': 3, 'eps': 2.0 ** -7, 'adj': False, 'nested': [0], 'n': (10, 10), 'folded': True,
+     'ops': ('fim', 'gim', 'lrt')},
+    {'name': 'k1-folded-theta-augmented', 'k': 1, 'multinom': True, 'nb': 4, 'eps': 2.0 ** -8, 'nested': [0], 'n': (12, 16), 'folded': True,
+     'ops': ('fim', 'gim', 'lrt')},
+    {'name': 'k2-folded-odd-masked', 'k': 2, 'multinom': False, 'nb': 5, 'eps': 2.0 ** -7, 'adj': True, 'nested': [0], 'n': (13, 13), 'folded': True,
+     'dmask': 1, 'bmask': 1, 'ops': ('fim', 'gim', 'lrt')},
+]
+
+
+def named_cases(rng, configs, ncand):
+    out = []
+    for cfg in configs:
+        for _ in range(ncand):
+            case = gen_stats_case(rng, cfg=cfg)
+            case['screen_ops'] = [o for o in cfg['ops']]
+            out.append(case)
+    return out
+
+
+def named_records(nid, configs, cases, ok, ncand, tag):
+    """for every named configuration and each of its statistics: the first candidate TLC's screening can decide"""
+    recs, missing = [], []
+    for ci, cfg in enumerate(configs):
+        for op in cfg['ops']:
+            cands = [j for j in range(ci * ncand, (ci + 1) * ncand) if op in ok[j]]
+            if not cands:
+                missing.append('%s/%s' % (cfg['name'], op))
+                continue
+            case = cases[cands[0]]
+            recs.append({'id': '%s-%d' % (op, next(nid)), 'op': op, 'site': SITE[op] + tag, 'in': stats_in(case, op), 'out': call_stat(case, op)})
+    return recs, missing
+
+
+# ---- call sequences on one model function object
+class SeqModel:
+    """ONE function object (params, ns, pts) -> Spectrum, linear in params for every (ns, pts); table[(n, pts)] = LinModel"""
+
+    def __init__(self, table):
+        self.table = table
+
+    def __call__(self, params, ns, pts):
+        return self.table[(int(ns[0]), tuple(int(v) for v in pts))](params, ns, pts)
+
+    def enc_table(self):
+        return [{'ns': n, 'pts': list(g), 'B0': rats(np.asarray(m.B0.data)), 'B': [rats(np.asarray(b.data)) for b in m.B]}
+                for (n, g), m in sorted(self.table.items())]
+
+
+COMPONENTS = ('grid_pts', 'p0', 'ns', 'data', 'multinom', 'log', 'eps')
+
+
+def seq_setup(rng):
+    """a model object and two values for every argument of a call"""
+    n1 = rng.randint(6, 9)
+    n2 = n1 + rng.choice([1, 2])
+    g1, g2 = rng.choice([([10], [12]), ([10, 12, 14], [12, 14, 16]), ([12], [12, 14])])
+    g1, g2 = tuple(g1), tuple(g2)
+    table = {(n, g): LinModel(rng, n, 2, fixed=True, scale=16) for n in (n1, n2) for g in (g1, g2)}
+    ps = [[short(rng, 0.75, 2.5, 8), short(rng, 0.75, 2.5, 8)] for _ in range(2)]
+    while ps[1] == ps[0]:
+        ps[1] = [short(rng, 0.75, 2.5, 8), short(rng, 0.75, 2.5, 8)]
+    eps = rng.sample([2.0 ** -7, 2.0 ** -6, 3 * 2.0 ** -8], 2)
+    data, boots = {}, {}
+    for n in (n1, n2):
+        mean = sum(np.asarray(table[(n, g)](p, [n], list(g)).data) for g in (g1, g2) for p in ps) / 4.0
+        data[n] = [poisson_like(rng, mean), poisson_like(rng, mean)]
+        boots[n] = [poisson_like(rng, mean) for _ in range(5)]
+    return {'func': SeqModel(table), 'n': (n1, n2), 'g': (g1, g2), 'p': ps, 'eps': eps, 'data': data, 'boots': boots}
+
+
+def seq_case(su, state):
+    """the arguments of one call: state = set of components that take their second value"""
+    n = su['n'][1 if 'ns' in state else 0]
+    g = su['g'][1 if 'grid_pts' in state else 0]
+    return {'model': su['func'].table[(n, g)], 'func': su['func'], 'p0': list(su['p'][1 if 'p0' in state else 0]),
+            'multinom': 'multinom' in state, 'log': 'log' in state, 'data': su['data'][n][1 if 'data' in state else 0],
+            'boots': su['boots'][n], 'eps': su['eps'][1 if 'eps' in state else 0], 'adj': None, 'nested': [0], 'full': [0.0],
+            'pts': list(g), 'n': n}
+
+
+def seq_words(rng, quick):
+    """words = (name, [(fn, state, varied component)]): base / one argument changed / base again for every argument and the
+    functions that hand the model object itself to the cache; walks that change one argument per call and accumulate"""
+    words = []
+    base = frozenset()
+    for fn in ('fim', 'gim', 'godambe'):
+        for comp in COMPONENTS:
+            if fn == 'godambe' and comp == 'multinom':
+                continue              # get_godambe has no such argument
+            words.append(('%s:%s' % (fn, comp), [(fn, base, ''), (fn, frozenset([comp]), comp), (fn, base, comp)], comp))
+    for fn, length in (('fim', 9), ('gim', 5)) if quick else (('fim', 9), ('gim', 7), ('godambe', 7), ('fim', 12), ('gim', 9)):
+        comps = [c for c in COMPONENTS if not (fn == 'godambe' and c == 'multinom')]
+        order = []
+        while len(order) < length:
+            c = rng.choice(comps)
+            if not order or c != order[-1]:
+                order.append(c)
+        st, steps = base, [(fn, base, '')]
+        for c in order:
+            st = st ^ frozenset([c])
+            steps.append((fn, st, c))
+        words.append(('%s:walk' % fn, steps, 'walk'))
+    # the other entry points wrap the model in a function object of their own: mixed in, they must not disturb anything
+    words.append(('mixed', [('fim', base, ''), ('lrt', frozenset(['grid_pts']), 'grid_pts'), ('gim', frozenset(['grid_pts']), ''),
+                            ('lrt', base, 'grid_pts'), ('fim', frozenset(['grid_pts']), ''), ('godambe', base, 'grid_pts')], 'mixed'))
+    return words
+
+
+def seq_screen_cases(su, words):
+    need = {}
+    for _, steps, _ in words:
+        for fn, st, _ in steps:
+            if 'log' not in st:
+                need.setdefault(st, set()).add(fn)
+    out = []
+    for st in sorted(need, key=sorted):
+        case = seq_case(su, st)
+        case['screen_ops'] = sorted(need[st])
+        case['state'] = st
+        out.append(case)
+    return out
+
+
+def run_word(func, cases, fns, fresh_memo=None, memo_keys=None):
+    """Execute the calls one after the other on the real module-level cache (cleared before the first call only) and,
+    for reference, each of them alone on an empty cache."""
+    from dadi import Godambe
+    fresh = []
+    for j, (case, fn) in enumerate(zip(cases, fns)):
+        key = memo_keys[j] if memo_keys else None
+        if fresh_memo is not None and key in fresh_memo:
+            fresh.append(fresh_memo[key])
+            continue
+        Godambe.cache.clear()
+        r = call_stat(case, fn, func=func)
+        if fresh_memo is not None:
+            fresh_memo[key] = r
+        fresh.append(r)
+    Godambe.cache.clear()
+    gc.collect()
+    res = [call_stat(case, fn, func=func) for case, fn in zip(cases, fns)]
+    Godambe.cache.clear()
+    if any('raised' in r for r in res + fresh):
+        return {'raised': [r.get('raised', '') for r in res + fresh]}
+    return {'res': res, 'fresh': fresh, 'flat': [flatten(r) for r in res], 'freshflat': [flatten(r) for r in fresh]}
+
+
+def seq_step_in(case, fn, varied):
+    return {'fn': fn, 'x': stats_in(case, fn), 'log': bool(case.get('log')), 'ns': int(case['n']), 'pts': [int(v) for v in case['pts']],
+            # FIM_uncert / GIM_uncert without the theta augmentation and get_godambe itself hand the caller's function object to the cache
+            'persistent': fn == 'godambe' or (fn in ('fim', 'gim') and not case['multinom']), 'multinom': bool(case['multinom']), 'varied': varied}
+
+
+def seq_records(nid, su, words, okmap):
+    recs, dropped = [], []
+    memo = {}
+    for name, steps, tag in words:
+        if any('log' not in st and fn not in okmap.get(st, ()) for fn, st, _ in steps):
+            dropped.append(name)
+            continue
+        cases = [seq_case(su, st) for _, st, _ in steps]
+        fns = [fn for fn, _, _ in steps]
+        out = run_word(su['func'], cases, fns, memo, [(fn, st) for fn, st, _ in steps])
+        inp = {'word': name, 'table': su['func'].enc_table(), 'steps': [seq_step_in(c, fn, v) for c, (fn, _, v) in zip(cases, steps)]}
+        recs.append({'id': 'callseq-%d' % next(nid), 'op': 'callseq', 'site': 'Godambe.cache@vary-' + tag, 'in': inp, 'out': out})
+    return recs, dropped
 
 
 # ------------------------------------------------------------------ 3. chi-square mixture
@@ -570,11 +869,20 @@ def case_from(inp, md=None):
     mdl.B0 = dadi.Spectrum(np.array([_f(x) for x in md['B0']]))
     adj = [_f(a) for a in inp.get('adj', [])]
     forms = inp.get('forms', ['nested', 'spectrum', 'list', 'full', ''])
-    return {'model': mdl, 'p0': [_f(x) for x in md['p']], 'multinom': md['multinom'], 'data': dadi.Spectrum(np.array([_f(x) for x in inp['d']])),
-            'boots': [dadi.Spectrum(np.array([_f(x) for x in b])) for b in inp.get('boots', [])], 'eps': _f(inp['eps']),
+    dressed = 'dmask' in inp
+    folded = True if inp.get('folded') else None
+
+    def spectrum(vals, mask=None):
+        if not dressed:
+            return dadi.Spectrum(np.array([_f(x) for x in vals]))
+        return dadi.Spectrum(np.array([_f(x) for x in vals]), mask=np.array(mask, dtype=bool), data_folded=folded)
+    bm = inp.get('bmasks', [])
+    return {'model': mdl, 'p0': [_f(x) for x in md['p']], 'multinom': md['multinom'], 'data': spectrum(inp['d'], inp.get('dmask')),
+            'boots': [spectrum(b, bm[j] if dressed else None) for j, b in enumerate(inp.get('boots', []))], 'eps': _f(inp['eps']),
             'adj': adj if any(a != 1.0 for a in adj) else None, 'nested': [a - 1 for a in inp['nested']],
             'full': [_f(x) for x in inp.get('full', [])], 'pts': [10],
-            'fullform': forms[0], 'bootform': forms[1], 'nestform': forms[2], 'plain': forms[3] == 'plain', 'cfg': forms[4]}
+            'fullform': forms[0], 'bootform': forms[1], 'nestform': forms[2], 'plain': forms[3] == 'plain', 'cfg': forms[4],
+            'dressed': dressed, 'folded': bool(inp.get('folded'))}
 
 
 def reexecute(rec):
@@ -601,6 +909,24 @@ def reexecute(rec):
         w = tuple(_f(v) for v in inp['w'])
         w = {'tuple': w, 'list': list(w), 'array': np.array(w)}[inp.get('wform', 'tuple')]
         new['out'] = chi2_observe(x, w)
+        return new
+    if op == 'callseq':
+        import dadi
+        table = {}
+        for t in inp['table']:
+            m = LinModel.__new__(LinModel)
+            m.k, m.n = len(t['B']), len(t['B0']) - 1
+            m.B = [dadi.Spectrum(np.array([_f(x) for x in row])) for row in t['B']]
+            m.B0 = dadi.Spectrum(np.array([_f(x) for x in t['B0']]))
+            table[(t['ns'], tuple(t['pts']))] = m
+        func = SeqModel(table)
+        cases = []
+        for stp in inp['steps']:
+            c = case_from(stp['x'])
+            c.update({'model': table[(stp['ns'], tuple(stp['pts']))], 'func': func, 'pts': list(stp['pts']), 'log': stp['log'], 'n': stp['ns'],
+                      'multinom': stp['multinom']})
+            cases.append(c)
+        new['out'] = run_word(func, cases, [stp['fn'] for stp in inp['steps']])
         return new
     if op == 'history':
         base = dict(inp)
@@ -636,6 +962,14 @@ def mutate(rec):
     if op in ('fim', 'gim'):
         out['u'][0] = rat(Fraction(out['u'][0]) * 3)
         return rec
+    if op == 'godambe':
+        out['G'][0][0] = rat(Fraction(out['G'][0][0]) * 3)
+        return rec
+    if op == 'callseq':
+        r0 = out['res'][0]
+        r0['H'][0][0] = rat(Fraction(r0['H'][0][0]) * 3)
+        out['flat'][0] = flatten(r0)
+        return rec
     if op == 'lrt':
         out['v'] = rat(Fraction(out['v']) * 3)
         return rec
@@ -667,13 +1001,18 @@ def nontrivial(r):
     if op in ('hess', 'grad'):
         p = [Fraction(x) for x in i['p']]
         eps = Fraction(i['eps'])
-        kinds = tuple(sorted({'zero' if x == 0 else 'neg' if x < 0 else 'onesided' if x * eps < Fraction(1, 10 ** 6) else 'central' for x in p}))
+        tie = Fraction(1, 10 ** 6)
+        kinds = tuple(sorted({'zero' if x == 0 else 'neg' if x < 0 else 'threshold' if abs(x * eps - tie) <= tie / 10 ** 15 else
+                              'onesided' if x * eps < tie else 'central' for x in p}))
         lin = all(Fraction(v) == 0 for row in i['Q'] for v in row)
         return (op, len(p), kinds, lin, int(math.floor(math.log10(float(eps)))), i.get('pform'), i.get('args'))
     if op in SITE:
         md = i['md']
         return (op, len(md['p']), md['multinom'], len(i['boots']), tuple(i['nested']) if op in ('lrt', 'wald', 'score') else (),
-                any(a != '1' for a in i['adj']), int(math.floor(math.log10(float(Fraction(i['eps']))))), tuple(i.get('forms', ())))
+                any(a != '1' for a in i['adj']), int(math.floor(math.log10(float(Fraction(i['eps']))))), tuple(i.get('forms', ())),
+                i.get('folded', False), sum(i.get('dmask', [])), tuple(sum(b) for b in i.get('bmasks', [])))
+    if op == 'callseq':
+        return (op, i['word'], tuple((st['fn'], st['varied']) for st in i['steps']))
     if op == 'perm':
         return (op, i['fn'], tuple(i['perm']))
     if op == 'chi2':
@@ -691,6 +1030,9 @@ def what_of(rec, clause):
     if rec['op'] == 'history':
         steps = ' '.join('%s:%s%s' % (s['who'], s['fn'], '~' if s['transient'] else '') for s in rec['in']['steps'])
         return 'call history [%s] on the shared Godambe.cache (~ = transient lambda): clause %s violated (record %s)' % (steps, clause, rec['id'])
+    if rec['op'] == 'callseq':
+        steps = ' -> '.join('%s%s' % (st['fn'], ('[' + st['varied'] + ' changed]') if st['varied'] else '') for st in rec['in']['steps'])
+        return 'calls on one model function object sharing Godambe.cache (%s): clause %s violated (record %s)' % (steps, clause, rec['id'])
     if rec['op'] == 'chi2':
         return 'sum_chi2_ppf(%s input, weights %s): clause %s violated, observed %s (record %s)' % (
             rec['in']['input'], [float(Fraction(w)) for w in rec['in']['w']], clause, rec['out'].get('raised', rec['out'].get('kind')), rec['id'])
@@ -699,22 +1041,56 @@ def what_of(rec, clause):
 
 def records(ctx):
     logging.getLogger('Inference').setLevel(logging.CRITICAL)
+    logging.getLogger('Spectrum_mod').setLevel(logging.CRITICAL)
     nid = itertools.count()
     recs = stencil_records(ctx, random.Random(ctx.seed + 191), nid)
     rs, rh = random.Random(ctx.seed + 192), random.Random(ctx.seed + 194)
     det, rnd = stats_cases(ctx, rs)
     setups = history_candidates(ctx, rh)
     flat = [c for cand in setups for pair in cand for c in pair]
-    ok = screen(det + rnd + flat)                      # one TLC pass decides which closed-form comparisons are decidable
-    ns = len(det) + len(rnd)
-    st, extra = stats_records(ctx, rs, nid, det, rnd, ok[:ns])
+    # deterministic blocks with their own generators: thresholds of the step rule (1), call sequences on one function object (2),
+    # masked / folded spectra (3)
+    r1, r2, r3 = (random.Random(ctx.seed + 1900 + k) for k in (1, 2, 3))
+    thr = threshold_records(ctx, r1, nid)
+    ncand = 3 if ctx.quick else 6
+    tie_cases = named_cases(r1, TIE_CONFIGS, ncand)
+    mask_cases = named_cases(r3, MASK_CONFIGS, ncand)
+    words = seq_words(r2, ctx.quick)
+    seq_sus = [seq_setup(r2) for _ in range(2 if ctx.quick else 4)]
+    seq_sc = [seq_screen_cases(su, words) for su in seq_sus]
+    groups = [det + rnd, flat, tie_cases, mask_cases] + seq_sc
+    ok = screen([c for g in groups for c in g])        # one TLC pass decides which closed-form comparisons are decidable
+    oks, pos = [], 0
+    for g in groups:
+        oks.append(ok[pos:pos + len(g)])
+        pos += len(g)
+    st, extra = stats_records(ctx, rs, nid, det, rnd, oks[0])
     recs += st
     recs += chi2_records(ctx, random.Random(ctx.seed + 193), nid)
-    oks, pos = [], ns
+    hoks, pos = [], 0
     for cand in setups:
-        oks.append(ok[pos:pos + 2 * len(cand)])
+        hoks.append(oks[1][pos:pos + 2 * len(cand)])
         pos += 2 * len(cand)
-    recs += history_records(ctx, rh, nid, setups, oks)
+    recs += history_records(ctx, rh, nid, setups, hoks)
+    recs += thr
+    t_recs, t_missing = named_records(nid, TIE_CONFIGS, tie_cases, oks[2], ncand, '@threshold')
+    m_recs, m_missing = named_records(nid, MASK_CONFIGS, mask_cases, oks[3], ncand, '@masked')
+    recs += t_recs + m_recs
+    # call sequences: of the candidate setups the one for which TLC can decide the most words
+    def okmap(j):
+        return {c['state']: o for c, o in zip(seq_sc[j], oks[4 + j])}
+
+    def usable(j):
+        m = okmap(j)
+        return sum(all('log' in stt or fn in m.get(stt, ()) for fn, stt, _ in steps) for _, steps, _ in words)
+    best = max(range(len(seq_sus)), key=usable)
+    if 2 * usable(best) < len(words):
+        raise common.MachineryError('C19 call sequences: no candidate setup is decidable for at least half of the words')
+    s_recs, s_dropped = seq_records(nid, seq_sus[best], words, okmap(best))
+    recs += s_recs
+    extra.update({'threshold_and_masked_configurations': [c['name'] for c in TIE_CONFIGS + MASK_CONFIGS],
+                  'threshold_and_masked_configurations_without_decidable_case': t_missing + m_missing,
+                  'call_sequence_words': [w[0] for w in words], 'call_sequence_words_dropped_undecidable': s_dropped})
     return recs, extra
 
 
